@@ -61,7 +61,7 @@ import LitexProofs.Stream.HandshakeGearboxLive
   | Dispatcher                    | dispatcher m oneHot                  | (comb: as Demultiplexer)  | dispatcher_progress 1                 | —    | AP,BP `dispatcher m oh`             |
   | Packetizer (aligned)          | packetizer c                         | packetizer_stable         | packetizer_no_livelock 1, packetizer_accepts W+1 | — | AP,BP `packetizer …`          |
   | Depacketizer (aligned)        | depacketizer c                       | depacketizer_stable       | depacketizer_no_livelock W+1          | —    | AP,BP `depacketizer …`              |
-  | Packetizer, any header length | packetizer c                         | packetizer_stable_all (full strength after the flush-padding fix) | packetizer_no_livelock_any 1; sink service: neg. witness (C16 single-beat) | — | AP,BP |
+  | Packetizer, any header length | packetizer c                         | packetizer_stable_partial (FirstBeatHeld: single-beat corner only; neg. witness) | packetizer_no_livelock_any 1; sink service: neg. witness (C16 single-beat) | — | AP,BP |
   | Depacketizer unaligned        | depacketizer c                       | OPEN (monitors, UOk dom.) | OPEN (monitors; open C16 findings)    | —    | AP,BP                               |
   | PacketFIFO plain              | packetFifo pd qd                     | (FIFO outputs: syncFifo)  | packetfifo_progress 1, no_livelock pd+1 (packets ≤ pd) | — | AP,BP `packetfifo` |
   | PacketFIFO buffered           | packetFifoBuffered pd qd (pd,qd ≥ 2) | (register outputs)        | packetfifo_buffered_progress 1, no_livelock pd+2 (packets ≤ pd) | — | AP,BP `packetfifo_buffered` |
@@ -1121,21 +1121,45 @@ example :
     ((Litex.Packet.arbiter 3).out ((Litex.Packet.arbiter 3).runFrom (Litex.Packet.arbiter 3).init [i, i]) i).readys =
       [false, false, true] := by decide
 
-/-! ## packet.Packetizer, EVERY header length (aligned or not): stability, full strength
+/-! ## packet.Packetizer, EVERY header length (aligned or not): stability
 
-  Before the fix of C04-packetizer-flush-padding-unstable the statement was false for unaligned headers: while the
-  residue beat of a packet is flushed (`sink_d.last`, `source.valid` high without `sink.valid`) the upper bytes of
-  `source.data` were wired to the sink data lines of a producer that offers nothing, and moved with them while the
-  consumer stalled (real Packetizer, dw = 16, 3-byte header: 0x00bb → 0xffbb with valid = 1, ready = 0; replayed by
-  the probe of that finding).  Since the fix (`If(~sink_d.last, source.data[leftover*8:].eq(sink.data))`) the flush
-  beat shows registers only, and the contract holds with no hypothesis beyond the producer's own contract. -/
+  Before the fix of C04-packetizer-flush-padding-unstable: while the residue beat of a packet is flushed
+  (`sink_d.last`, `source.valid` high without `sink.valid`) the upper bytes of `source.data` were wired to the sink
+  data lines of a producer that offers nothing, and moved with them while the consumer stalled (real Packetizer,
+  dw = 16, 3-byte header: 0x00bb → 0xffbb with valid = 1, ready = 0; replayed by the probe of that finding).  Since
+  the fix (`If(~sink_d.last | fsm_from_idle, source.data[leftover*8:].eq(sink.data))`) the flush beat shows registers
+  only.  Full statement `KeepsContract (packetizer c)`: still refuted in ONE corner, inside the open finding
+  C16-packetizer-unaligned-single-beat — the first copy beat of a one-beat packet is valid through `sink_d.last` too
+  and carries the sink data lines (the packet's payload); from a state reached by a producer that *withdrew* that
+  refused beat (it broke the contract one boundary earlier) the lanes follow idle lines.  Proved `_partial` under
+  `FirstBeatHeld` (in exactly that state the sink data lines are held); negative witness below, same trace on the
+  real (fixed) code: 0x00c3 → 0xffc3.  Along every run from reset on which the producer keeps the contract the state
+  is never met without a sink token, and every other state needs no hypothesis. -/
 
-theorem packetizer_stable_all (c : Litex.Packet.PkCfg) : KeepsContract (Litex.Packet.packetizer c) :=
-  keepsContract_of_stepStable (Litex.Packet.packetizer_stepStable_all c) trivial
+theorem packetizer_stable_partial (c : Litex.Packet.PkCfg) :
+    KeepsContractX (Litex.Packet.packetizer c) (Litex.Packet.FirstBeatHeld c) :=
+  Litex.Packet.packetizer_keepsContractX c
 
-/-- The former negative witness (dw = 16, H = 3; flush beat waiting, the idle producer moves its data lines
-    0x0000 → 0x00ff): the pre-fix expression `pkUDataPre` moves (0x00bb → 0xffbb), the fixed machine holds its token,
-    and the fix changes nothing outside the flush beat. -/
+/-- Negative witness for `FirstBeatHeld` (dw = 16, H = 3): a one-beat packet is offered once and withdrawn; the first
+    copy beat waits (valid through `sink_d.last`), the idle producer moves its data lines 0x0000 → 0x00ff. -/
+example :
+    let c : Litex.Packet.PkCfg := ⟨2, 3⟩
+    let e := Litex.Packet.packetizer c
+    let s := e.runFrom e.init [⟨true, ⟨⟨0x2211, 0xc3b2a1⟩, false, true⟩, true⟩]
+    let i  : In Litex.Packet.HBeat := ⟨false, ⟨⟨0x0000, 0xc3b2a1⟩, false, false⟩, false⟩
+    let i' : In Litex.Packet.HBeat := ⟨false, ⟨⟨0x00ff, 0xc3b2a1⟩, false, false⟩, false⟩
+    s.st = .ucopy ∧ s.fromIdle = true ∧ s.dLast = true ∧
+    (e.out s i).valid = true ∧ (e.out s i).tok.data = 0x00c3 ∧ (e.out (e.step s i) i').tok.data = 0xffc3 ∧
+    ¬ HoldsOut (e.out s i) (e.out (e.step s i) i') i := by
+  refine ⟨by decide, by decide, by decide, by decide, by decide, by decide, ?_⟩
+  intro h
+  have h2 := (h (by decide) rfl).2
+  revert h2
+  decide
+
+/-- The former negative witness (genuine flush beat waiting, the idle producer moves its data lines 0x0000 → 0x00ff):
+    the pre-fix expression `pkUDataPre` moves (0x00bb → 0xffbb), the fixed machine holds its token, and the fix
+    changes nothing outside the genuine flush beat. -/
 example :
     let c : Litex.Packet.PkCfg := ⟨2, 3⟩
     let s : Litex.Packet.PkState :=
@@ -1145,8 +1169,12 @@ example :
     c.pkUDataPre s 0x0000 = 0x00bb ∧ c.pkUDataPre s 0x00ff = 0xffbb ∧
     ((Litex.Packet.packetizer c).out s i).valid = true ∧ ((Litex.Packet.packetizer c).out s i).tok.data = 0x00bb ∧
     ((Litex.Packet.packetizer c).out ((Litex.Packet.packetizer c).step s i) i').tok.data = 0x00bb ∧
+    HoldsOut ((Litex.Packet.packetizer c).out s i)
+      ((Litex.Packet.packetizer c).out ((Litex.Packet.packetizer c).step s i) i') i ∧
     c.pkUData { s with dLast := false } 0x00ff = c.pkUDataPre { s with dLast := false } 0x00ff := by
-  refine ⟨by decide, by decide, by decide, by decide, by decide, by decide⟩
+  refine ⟨by decide, by decide, by decide, by decide, by decide, ?_, by decide⟩
+  intro _ _
+  exact ⟨by decide, by decide⟩
 
 /-- Non-vacuity: the flush state of the witness is reachable (2-beat packet through the dw16/H3 packetizer). -/
 example :
@@ -1213,8 +1241,8 @@ example :
   Not proved (kept as open statements; the behaviour is validated by the correspondence and the monitors only):
 
   (session 2: the buffered PacketFIFO statements are now proved: packetfifo_buffered_progress / _no_livelock.)
-  (session 2: Packetizer stability for every header length is proved at full strength after the fix of
-   C04-packetizer-flush-padding-unstable: packetizer_stable_all.)
+  (session 2: Packetizer stability for every header length after the fix of C04-packetizer-flush-padding-unstable:
+   packetizer_stable_partial, hypothesis FirstBeatHeld confined to the single-beat corner.)
   theorem depacketizer_unaligned_stable_open :
       inside C16's `UOk` producer domain, with the padding bytes of a `last` beat masked, the unaligned
       Depacketizer keeps the contract (harness: exhaustive dw16/H3, random dw32/H6, dw64/H11).
